@@ -146,8 +146,18 @@ class CachedProxy(Cached[T_Stored]):
 		for oldest in self.find_oldest(cache_path):
 			os.unlink(oldest)
 
-		with open(cache_path, mode='wb') as f:
-			instance.save(f)
+		# XXX 保存に失敗した場合に壊れたキャッシュファイルを残さないため、一時ファイルに出力してから置き換える
+		temp_path = f'{cache_path}.tmp'
+		try:
+			with open(temp_path, mode='wb') as f:
+				instance.save(f)
+
+			os.replace(temp_path, cache_path)
+		except BaseException:
+			if os.path.exists(temp_path):
+				os.unlink(temp_path)
+
+			raise
 
 	def find_oldest(self, cache_path: str) -> list[str]:
 		"""旧キャッシュファイルを検索
